@@ -1074,6 +1074,15 @@ namespace
                     ++ci.noops;
                     return;
                 }
+                if (s->fam == F_COLL && !ctx.allow_known)
+                {
+                    // exclusion of recorded finding F26: collections grow once before comparing
+                    // an array with next_capacity(), so an array above the maximum reported
+                    // before the call can succeed
+                    ++ctx.excluded;
+                    ++ci.noops;
+                    return;
+                }
                 r.array = true;
                 r.align = 1;
                 size_t total;
@@ -1101,6 +1110,14 @@ namespace
             else
             {
                 // alignment above max_alignment
+                if (s->fam == F_LOWLEVEL && !ctx.allow_known)
+                {
+                    // exclusion of recorded finding F25: the low-level allocators ignore the
+                    // alignment argument, so an over-aligned request "succeeds"
+                    ++ctx.excluded;
+                    ++ci.noops;
+                    return;
+                }
                 if (mxal > ~size_t(0) / 2)
                 {
                     ++ci.noops;
@@ -1123,7 +1140,8 @@ namespace
             if (p)
             {
                 if (has(O_CAPS) || has(O_FAIL))
-                    fail("above-max-succeeded", "a request above the reported maximum succeeded (size="
+                    fail(std::string("above-max-succeeded:") + (which == 0 ? "node" : which == 1 ? "array" : "alignment"),
+                         "a request above the reported maximum succeeded (size="
                                                     + std::to_string(r.size) + " count="
                                                     + std::to_string(r.count) + " align="
                                                     + std::to_string(r.align) + ")");
@@ -1188,6 +1206,7 @@ namespace
                 return;
             s->unwind(mr.idx);
             ++gen;
+            seq = mr.seq; // everything younger is gone; keeps "seq differs <=> an allocation lies between"
             size_t nested = markers.size();
             markers.resize(i + 1);
             for (auto& m : markers)
@@ -1403,12 +1422,22 @@ namespace
             bool above = op.a % 2;
             bool ok    = false;
             unsigned leak0 = H.leak;
-            if (what == 0)
-                ok = s->move_construct(above);
-            else if (what == 1)
-                ok = s->move_assign(above, int(op.b));
-            else
-                ok = s->swap_with_fresh(above);
+            try
+            {
+                if (what == 0)
+                    ok = s->move_construct(above);
+                else if (what == 1)
+                    ok = s->move_assign(above, int(op.b));
+                else
+                    ok = s->swap_with_fresh(above);
+            }
+            catch (std::bad_alloc&)
+            {
+                // constructing the fresh target failed (armed fault / exhausted source) before
+                // anything was moved: a clean failure, nothing changed
+                note_failure();
+                return;
+            }
             if (!ok)
             {
                 ++ci.noops;
@@ -1429,7 +1458,17 @@ namespace
             unsigned leak0 = H.leak;
             size_t  blocks = own_blocks();
             if (op.b % 3 == 2)
-                s->assign_to_zombie(i);
+            {
+                try
+                {
+                    s->assign_to_zombie(i);
+                }
+                catch (std::bad_alloc&)
+                {
+                    note_failure();
+                    return;
+                }
+            }
             else
             {
                 s->destroy_zombie(i);
